@@ -1,5 +1,5 @@
 (* C07  Hash, MAC and core primitives equal their specifications.  Statements only. *)
-From Dryoc Require Import Spec.Poly1305 Spec.Salsa20 Spec.ChaCha20 Spec.SipHash Impl.Poly1305 Impl.Cores Impl.Hashes Refine.Blake2b Refine.Hashes Refine.GenTie Refine.Poly1305 Refine.Cores.
+From Dryoc Require Import Spec.Poly1305 Spec.Salsa20 Spec.ChaCha20 Spec.SipHash Impl.Poly1305 Impl.Cores Impl.Hashes Refine.Blake2b Refine.Hashes Refine.GenTie Refine.Poly1305 Refine.Cores Gen.Poly1305Gen Refine.Poly1305Gen.
 Import Blake2bImpl HashesImpl.
 Open Scope Z_scope.
 
@@ -78,6 +78,20 @@ Theorem C07_poly1305_block_is_code : forall hibit r h m,
   rinv r -> hinv h -> length m = 16%nat -> wf_bytes m -> (hibit = 0 \/ hibit = Z.shiftl 1 40) ->
   Poly1305Impl.block_step hibit r h m = core r h (limbs (if hibit =? 0 then 0 else 2 ^ 40) m).
 Proof. exact block_step_core. Qed.
+
+(* the arithmetic of poly1305_soft.rs as translated from the source on this run (block loop body,
+   finalize, key clamping) is, statement for statement, the model proved above *)
+Theorem C07_poly1305_from_source :
+  (forall hibit r0 r1 r2 h0 h1 h2 m,
+     gen_block_step hibit r0 r1 r2 h0 h1 h2 (Poly1305Impl.load_u64_le (firstn 8 m)) (Poly1305Impl.load_u64_le (skipn 8 m)) =
+     Poly1305Impl.block_step hibit (r0, r1, r2) (h0, h1, h2) m) /\
+  (forall h0 h1 h2 t0 t1, gen_finish_words h0 h1 h2 t0 t1 = Poly1305Impl.finish_words (h0, h1, h2) (t0, t1)) /\
+  (forall key, gen_clamp (Poly1305Impl.load_u64_le (slice key 0 8)) (Poly1305Impl.load_u64_le (slice key 8 16)) = Poly1305Impl.st_r (Poly1305Impl.new key)) /\
+  gen_hibit = Z.shiftl 1 40.
+Proof.
+  split; [exact gen_block_step_is_impl|]. split; [exact gen_finish_words_is_impl|].
+  split; [exact gen_clamp_is_impl|exact gen_hibit_is_impl].
+Qed.
 
 (* crypto_core_hsalsa20 / crypto_core_hchacha20 as translated from src/classic/crypto_core.rs on
    this run (loop bodies, iteration counts, word layout, output words) are HSalsa20 / HChaCha20 *)
